@@ -4,3 +4,4 @@
   changed kernel reaches only the properties listed here.
 -/
 import VK.Props.C09
+import VK.Props.C09Status
